@@ -9,6 +9,7 @@ from . import c16, c17
 from .. import c19obj
 from .. import c19fa
 from .. import c19rx
+from .. import c19fao
 from ..core import CaseResult, outcome
 
 ID = "C19"
@@ -63,6 +64,11 @@ def generate(rng, tier):
         if rng.random() < 0.2:
             # one automaton object edited between queries (mutators + queries), against fresh objects and the model
             yield {"fah": c19fa.gen_history(rng)}
+            continue
+        if rng.random() < 0.15:
+            # one automaton object (EpsilonNFA / NFA / DFA) as a state machine: returned integers, exceptions and the
+            # private fields after every mutator call against Pfl/Model/FAObject.lean
+            yield {"fo": c19fao.gen_history(rng)}
             continue
         if rng.random() < 0.2:
             # a population of regex objects sharing their operands: answers (state numbers included) and the
@@ -303,6 +309,9 @@ def run_case(case, drv):
         return res
     if "fah" in case:
         c19fa.run_history(case["fah"], drv, res)
+        return res
+    if "fo" in case:
+        c19fao.run_history(case["fo"], drv, res)
         return res
     if "rh" in case:
         c19rx.run_history(case["rh"], drv, res)
